@@ -104,6 +104,19 @@ def refixpoint_oracle(res, sysobj, summary, when):
     return True
 
 
+def after_op(res, sysobj, sm, tr):
+    """callback for NetBatch.add: records the wire values after every operation and, after every operation that advanced the clock
+    (a poke alone leaves the netlist unsettled by design), applies the fixpoint oracle"""
+    st = {'clks': 0, 'failed': False}
+    def cb(d, sim):
+        if sim.total_clks != st['clks'] and not st['failed']:
+            st['failed'] = not refixpoint_oracle(res, sysobj, sm, 'after clk()')
+        st['clks'] = sim.total_clks
+        tr.append({w.name: w.value for w in d.wires})
+    cb.st = st
+    return cb
+
+
 def exhaustive_digraphs(res, rng, tier, lim):
     """EVERY digraph (self-loops included) on n leaves with the leaves instantiated in index order — relabelling makes this
     every instantiation order of every netlist shape on n leaves: real sorter (stub leaves with arbitrary fan-in) vs the Lean
@@ -273,6 +286,8 @@ def main(res, tier, rng, replay):
         plan = G.random_plan(r, size, seq_ratio=(1, 6), wmax=r.choice([1, 3, 8]),
                              kinds=COMB_KINDS + ['Reg', 'Sequence'])
         ring = 0
+        if i % 3 == 2:
+            G.register_inputs(plan)
         if r.chance(1, 4):
             ring = r.choice([1, 1, 2, 2, 3, 5])
             add_ring(plan, r, ring)
@@ -325,7 +340,7 @@ def main(res, tier, rng, replay):
             if cyc is None:
                 try:
                     nb.add(sysobj, real_ops, sim=sim, label=i,
-                           extra_check=lambda d, s, _sm=sm, _so=sysobj: tr.append({w.name: w.value for w in d.wires}))
+                           extra_check=after_op(res, sysobj, sm, tr))
                 except D.NotDumpable:
                     pass
                 refixpoint_oracle(res, sysobj, sm, 'after clk()')
